@@ -264,3 +264,45 @@ Proof.
   rewrite <- Ep. rewrite atoi_print_int by exact Ha.
   rewrite !timestamp_roundtrip by assumption. reflexivity.
 Qed.
+
+(** ** /view-raw *)
+Definition view_raw_form (file : list Z) (aid : Z) : list (list Z * list Z) :=
+  [(k_file, file); (k_retention, print_int aid)].
+
+Theorem handle_view_raw_is_local_read lookup file aid :
+  file <> [] -> Forall byte file -> - 2^63 <= aid < 2^63 ->
+  handle_view_raw lookup (view_raw_query file aid) = respond_raw (read_raw (lookup file) aid).
+Proof.
+  intros Hne Hf Ha. unfold handle_view_raw.
+  assert (Hq : view_raw_query file aid = build_query (view_raw_form file aid)).
+  { unfold view_raw_query, view_raw_form. cbn [build_query].
+    rewrite (q_escape_unreserved (print_int aid)) by apply print_int_unreserved.
+    repeat rewrite <- app_assoc. reflexivity. }
+  rewrite Hq. rewrite query_roundtrip; [| | discriminate].
+  2:{ unfold view_raw_form.
+      assert (Hpi : Forall byte (print_int aid))
+        by (eapply Forall_impl; [|apply print_int_unreserved]; intros c Hc; exact (unreserved_byte c Hc)).
+      repeat (apply Forall_cons; [split; cbn [fst snd]; [plain_key | assumption]|]). apply Forall_nil. }
+  change (form_get (view_raw_form file aid) k_retention) with (print_int aid).
+  change (form_get (view_raw_form file aid) k_file) with file.
+  destruct (print_int aid) as [|c r] eqn:Ep.
+  { exfalso. pose proof (atoi_print_int aid Ha) as Hx. rewrite Ep in Hx. discriminate. }
+  rewrite <- Ep. rewrite atoi_print_int by exact Ha.
+  destruct file as [|f0 fr]; [contradiction | reflexivity].
+Qed.
+
+Theorem remote_view_raw_is_local lookup file aid :
+  file <> [] -> Forall byte file -> - 2^63 <= aid < 2^63 ->
+  match read_raw (lookup file) aid with
+  | RwNotExist => client_read_raw (handle_view_raw lookup (view_raw_query file aid)) = WNotExist
+  | RwErr => client_read_raw (handle_view_raw lookup (view_raw_query file aid)) = WErr
+  | RwOk h pl =>
+    forall hd, h_header h = Some hd -> wf_header hd ->
+               Forall (fun ps => Forall wf_point ps /\ zlen ps <= MaxInt32) pl -> length pl = length (h_arcs hd) ->
+    client_read_raw (handle_view_raw lookup (view_raw_query file aid)) = WOk hd pl
+  end.
+Proof.
+  intros Hne Hf Ha. rewrite handle_view_raw_is_local_read by assumption.
+  destruct (read_raw (lookup file) aid) as [| |h pl]; cbn [respond_raw client_read_raw]; try reflexivity.
+  intros hd Hh Hw Hl Hn. rewrite Hh. cbn [client_read_raw]. apply client_view_raw_of_response; assumption.
+Qed.
